@@ -3,7 +3,7 @@ from . import relayworld as rw
 
 PROP = 'C16'
 PROFILE = 'c16'
-QUICK = (120, 20, 60.0)
+QUICK = (240, 20, 60.0)
 THOROUGH = (600, 40, 840.0)
 boot, execute, cfg_sig, nontrivial = rw.boot, rw.execute, rw.cfg_sig, rw.nontrivial
 SHRINK_LISTS, SHRINK_DICTS = rw.SHRINK_LISTS, rw.SHRINK_DICTS
